@@ -421,6 +421,30 @@ func ruleNUMREDERIVE(c *Ctx) []Obligation {
 			if is, ok := pm[blk].(*ast.IfStmt); ok && strings.Contains(exprString(is.Cond), "IsUnnamed()") {
 				inUnnamed = true
 			}
+			// guard-clause form: `if !x.IsUnnamed() { return … / continue }` earlier in the same block
+			if blk != nil && !inUnnamed {
+				for _, st := range blk.List {
+					if st.Pos() >= incStmt.Pos() {
+						break
+					}
+					is, ok := st.(*ast.IfStmt)
+					if !ok || is.Else != nil || len(is.Body.List) == 0 {
+						continue
+					}
+					ue, ok := unparen(is.Cond).(*ast.UnaryExpr)
+					if !ok || ue.Op != token.NOT || !strings.Contains(exprString(ue.X), "IsUnnamed()") {
+						continue
+					}
+					switch last := is.Body.List[len(is.Body.List)-1].(type) {
+					case *ast.ReturnStmt:
+						inUnnamed = true
+					case *ast.BranchStmt:
+						if last.Tok == token.CONTINUE {
+							inUnnamed = true
+						}
+					}
+				}
+			}
 			contains := blk != nil && blk.Pos() <= sc.call.Pos() && sc.call.End() <= blk.End()
 			if !inUnnamed || !contains {
 				o.Verdict, o.Detail = VIOL, "the counter does not advance exactly once per unnamed entity (the ++ is not the unconditional tail of the `if x.IsUnnamed()` branch that stores the ID)"
